@@ -193,3 +193,42 @@ def run(ctx):
     # ---- R-C01.4 a committed transaction equals its buffered writes: newest write per key, once, for every keyspace (shared with C08)
     from . import C08
     C08.commit_rules(ctx, "R-C01.4")
+
+    # ---- R-C01.5 no write operation silently does nothing: on every success path a write entry point reaches its journal
+    # append and its tree apply; the only accepted shortcut is an empty batch (`self.is_empty()` / `self.data.is_empty()`)
+    for fn in R.write_entries(ctx):
+        og = ctx.og(fn)
+        app = R.call_blocks(fn, R.APPEND)
+        apply_ = R.apply_blocks(fn)
+        errs = list(A.error_starts(fn))
+        # blocks building an explicit Err(..) return (is_deleted / poisoned refusals) are error paths as well
+        for b, blk in enumerate(fn.blocks):
+            if blk["cleanup"]:
+                continue
+            for st in blk["s"]:
+                if st["p"]["l"] == 0 and not st["p"]["p"] and st["rv"]["k"] == "agg" and st["rv"].get("variant") == "Err":
+                    errs.append(b)
+        # the empty-batch shortcut
+        empties = []
+        for b, t in fn.calls():
+            if A.cname(t).endswith("::is_empty"):
+                recv = og.of_operand(t["args"][0])
+                ap = A.access_path(recv)
+                if ap is not None and ap[0] == "P1" and (len(ap) == 1 or ap[-1] == "data"):
+                    sw = A.switch_after_call(fn, b)
+                    if sw is not None:
+                        zero, true_t = A.bool_edges(fn, sw)
+                        empties += list(true_t)
+        r = A.reach(fn, [0], avoid=app + errs + empties)
+        rets = [x for x in fn.return_blocks() if x in r]
+        p_ = A.find_path(fn, [0], rets, avoid=app + errs + empties) if rets else None
+        ctx.ob("R-C01.5", fn, "no-silent-no-op-before-the-journal", bool(app) and not rets,
+               "every success path journals the operation (an empty batch aside)" if (app and not rets)
+               else "a success path returns Ok without journaling or applying the operation (bb%s): the write is acknowledged and silently dropped" % "->bb".join(map(str, p_ or [])))
+        if app and apply_:
+            r2 = A.reach(fn, [s_ for a in app for s_ in fn.succs(a)], avoid=apply_ + errs)
+            # a batch applies in a loop: the loop may run zero times only if the batch is empty (excluded above);
+            # for single operations the apply must be on every success path after the append
+            rets2 = [x for x in fn.return_blocks() if x in r2] if not any(A.in_cycle(fn, a) for a in apply_) else []
+            ctx.ob("R-C01.5", fn, "journaled-operation-is-applied", not rets2,
+                   "after the append every success path applies the operation to the tree" if not rets2 else "the operation can be journaled and acknowledged without being applied to the tree", nontrivial=bool(rets2))
